@@ -595,6 +595,18 @@ func (m *Monitor) afterRestart(n *Node) {
 			m.report("C04", "finalized-height", "behind-after-restart", "%s restarted on tip %d with finalized height %d below the precommitted height %d of that chain", n.Name, tip.Height, f, tb.BFT.MaxHeightPrecommitted)
 		}
 	}
+	if m.Enabled["C04"] && tb != nil {
+		// ... and never more: the finalized height is raised in the step that applies the block causing the raise, so
+		// what a restarted node holds is explained by what it held when last seen or by the chain it stands on
+		prev, ok := m.nowF[n.ID]
+		if !ok {
+			prev = m.Tree.Genesis.Header.Height
+		}
+		if f > prev && f > tb.BFT.MaxHeightPrecommitted {
+			m.report("C04", "finalized-height", "raised-without-its-block", "%s restarted on tip %d (%s) with finalized height %d; it held %d when last seen and the precommitted height of the chain it stands on is %d", n.Name, tip.Height, short(tip.ID), f, prev, tb.BFT.MaxHeightPrecommitted)
+		}
+		simkit.Probe("restart_finalized_height_explained")
+	}
 	m.nowF[n.ID] = f
 	m.lastF[n.ID] = f
 	m.raises[n.ID] = len(m.finalEvents[n.ID])
